@@ -3,9 +3,11 @@
 cd "$(dirname "$0")/.."
 tier=${1:-quick}; par=${2:-3}; shift 2 2>/dev/null
 ids="$@"
+[ -x .bin/vcheck ] || ./run --build >/dev/null 2>&1
 [ -z "$ids" ] && ids=$(.bin/vcheck --list)
-mkdir -p /tmp/sweep
-run1() { id=$1; s=$(date +%s); VERIF_WORKERS=${VERIF_WORKERS:-5} ./run $id $tier > /tmp/sweep/$id.log 2>&1; rc=$?; e=$(( $(date +%s) - s ));
-  echo "$id exit=$rc time=${e}s known=$(grep -c '^KNOWN-FINDING' /tmp/sweep/$id.log) viol=$(grep -c '^VIOLATION' /tmp/sweep/$id.log)"; }
-export -f run1; export tier
+out=/tmp/sweep_$tier
+mkdir -p $out
+run1() { id=$1; s=$(date +%s); VERIF_WORKERS=${VERIF_WORKERS:-5} ./run $id $tier > $out/$id.log 2>&1; rc=$?; e=$(( $(date +%s) - s ));
+  echo "$id exit=$rc time=${e}s known=$(grep -c '^KNOWN-FINDING' $out/$id.log) viol=$(grep -c '^VIOLATION' $out/$id.log)"; }
+export -f run1; export tier out
 echo $ids | tr ' ' '\n' | xargs -P $par -I{} bash -c 'run1 {}'
